@@ -310,5 +310,7 @@ def replay_part(ctx, rep):
     with open(tp, "w") as f:
         for e in rep["history"]:
             f.write(json.dumps(e) + "\n")
-    if validate(ctx, d, tp, "replay"):
+    # a replay of a KnownSpendersLaw breach is judged with the law applied (excused only while the finding is listed open)
+    mode = "strict" if rep.get("law") == "KnownSpendersLaw" and finding_mode() == "off" else None
+    if validate(ctx, d, tp, "replay", mode=mode):
         lib.log("replay: the recorded coin history is accepted by the specification")
